@@ -15,7 +15,13 @@ DRIVER_OPS = {
     "mp_header": "Multipart.runHeader",
 }
 GEN_MODULES = ["c01"]
-THEOREMS = ["Baize.Multipart.source_pinned"]
+THEOREMS = [
+    "Baize.Multipart.source_pinned",
+    "Baize.Multipart.parseStream_exact",
+    "Baize.Multipart.chunking_independent",
+    "Baize.Multipart.parseStream_items",
+    "Baize.Multipart.formAccessor_exact",
+]
 MANIFEST = {
     "technique": "Lean 4 proof (invariant over all chunk partitions) + differential correspondence of the Lean "
                  "decoder model with MultipartDecoder / parse_stream / parse_async_stream / Request.form",
@@ -48,7 +54,10 @@ ASSUMPTIONS = [
     "parameter and header names are ASCII where the code lower-cases them (str.lower on other text is not modelled)",
     "charset is utf-8, latin-1 or an unknown name (other codecs are not modelled)",
 ]
-PARTIAL = "proofs in progress: only the source pins are proved so far; the chunking-independence theorems are being added"
+PARTIAL = ("the meaning of a part's header block (Content-Disposition / parameter parsing, header folding) enters the "
+           "theorems as the hypothesis `headerEvent cs p.hdr = p.ev` of PartOK: it is discharged by kernel evaluation "
+           "for concrete header blocks (examples in Props/C01.lean) and tied to parse_header/_parse_headers by the "
+           "correspondence; a general theorem for all names and filenames is not proved")
 
 
 def _expect(line):
